@@ -5,11 +5,15 @@ import pickle
 import traceback
 
 
-CHILD_WALL_S = 600
+CHILD_WALL_S = 30
 
 
 class ForkError(Exception):
     pass
+
+
+class ForkTimeout(ForkError):
+    """the child was killed by its wall-clock backstop (the code under test did not terminate)"""
 
 
 def in_fork(fn, *args):
@@ -33,8 +37,10 @@ def in_fork(fn, *args):
     os.close(w)
     with os.fdopen(r, "rb") as f:
         data = f.read()
-    os.waitpid(pid, 0)
+    _, status = os.waitpid(pid, 0)
     if not data:
+        if os.WIFSIGNALED(status) and os.WTERMSIG(status) == 14:
+            raise ForkTimeout(f"forked child did not finish within {CHILD_WALL_S}s")
         raise ForkError("forked child produced no result")
     res = pickle.loads(data)
     if res[0] == "ok":
